@@ -47,7 +47,25 @@ Fixpoint check (h : list istep) (outs : list iout) (dirty : list N) : bool :=
   | _, _ => false
   end.
 
-Definition holds (c : case) : bool := check (c_hist c) (o_outs c) [].
+(* ... and at the end of the history: for every kind whose index is complete, the inverse entries on the ledger are
+   exactly the non-zero balances with a token, with the same amounts *)
+Fixpoint dirty_of (h : list istep) (dirty : list N) : list N :=
+  match h with
+  | SLegacy k _ :: r => dirty_of r (kkind k :: dirty)
+  | SCreateIndex kd :: r => dirty_of r (List.filter (fun x => negb (N.eqb x kd)) dirty)
+  | _ :: r => dirty_of r dirty
+  | [] => dirty
+  end.
+Definition final_ok (c : case) : bool :=
+  let d := dirty_of (c_hist c) [] in
+  let pm : bals := list_to_map (o_prim c) in
+  let im : bals := list_to_map (o_inv c) in
+  forallb (fun p => let '(kd, tk, a, v) := p in
+             existsb (N.eqb kd) d || ((v =? bget pm (kd, a, tk)) && negb (v =? 0))) (o_inv c) &&
+  forallb (fun p => let '(kd, a, tk, v) := p in
+             existsb (N.eqb kd) d || N.eqb tk 0 || (v =? 0) || (bget im (kd, tk, a) =? v)) (o_prim c).
+
+Definition holds (c : case) : bool := check (c_hist c) (o_outs c) [] && final_ok c.
 
 Definition label (c : case) : N :=
   fold_right (fun x acc => N.lor acc
